@@ -541,6 +541,18 @@ def setitem(I, obj, idx, v):
                     except ValueError:
                         raise PyExc('ValueError', 'extended slice size mismatch')
                     return
+                if obj.nd and all(b is None or (isinstance(b, int) and not isinstance(b, bool)) for b in (idx.start, idx.stop, idx.step)):
+                    # ndarray, concrete bounds: the addressed entries are overwritten in place (a scalar is broadcast, a
+                    # sequence must have their number); the length never changes
+                    pos = list(range(len(cell)))[idx]
+                    vals = concrete_iter(I, v) if (is_list(v) or isinstance(v, tuple)) else None
+                    if vals is not None and len(vals) != len(pos) and len(vals) != 1:
+                        raise PyExc('ValueError', 'could not broadcast input array')
+                    if vals is None and numkind(v) is None:
+                        raise Unsupported('slice assignment of %r' % (v,))
+                    for n_, p_ in enumerate(pos):
+                        setitem(I, obj, p_, v if vals is None else vals[n_ if len(vals) > 1 else 0])
+                    return
                 raise Unsupported('slice assignment')
             if isinstance(idx, SV):
                 n = len(cell)
@@ -1761,6 +1773,9 @@ def container_method(I, obj, name):
             return B(reshape)
         if name == 'argsort' and obj.nd and obj.kind == 'clist' and not any(is_list(y) for y in st.heap[obj]):
             f = lib_lookup(I, 'numpy.argsort')
+            return B(lambda I_, a, k: I_.call(f, [obj] + a, k))
+        if name == 'round' and obj.nd:
+            f = lib_lookup(I, 'numpy.round')
             return B(lambda I_, a, k: I_.call(f, [obj] + a, k))
         if name in ('ptp', 'argmin', 'argmax') and obj.nd:
             f = lib_lookup(I, 'numpy.' + name)
